@@ -97,7 +97,7 @@ def gen_cases(seed, n_cases):
         if kind in ("random", "batch"):
             A, B, C = rnd(n), rnd(n), rnd(n)
         elif kind == "near":
-            A = rnd(n); d = SR.from_rotvec(rng.normal(0, 1e-7, (n, 3))).as_matrix(); B = A @ d; C = A.copy()
+            A = rnd(n); sc = 10.0 ** rng.uniform(-8, -2, (n, 1)); d = SR.from_rotvec(rng.normal(0, 1, (n, 3)) * sc).as_matrix(); B = A @ d; C = A.copy()
         elif kind == "antipodal":
             A = rnd(n); ax = rng.normal(size=(n, 3)); ax /= np.linalg.norm(ax, axis=1)[:, None]
             B = A @ SR.from_rotvec(ax * np.pi).as_matrix(); C = rnd(n)
@@ -135,7 +135,13 @@ def run_case(case):
         return {"what": "angular_distance result shape", "got": list(dAB.shape)}
     if not np.all(np.isfinite(dAB)) or not np.all(np.isfinite(dAA)):
         return {"what": "angular_distance returned NaN", "kind": case["kind"]}
-    # near 0 and 180 the acos is ill-conditioned: compare through the chord as well
+    # small angles: 2*acos|q1.q2| resolves angles down to ~1e-6 degrees in double precision; compare with the angle from the
+    # chord |R1 - R2|_F = 2*sqrt(2)*sin(angle/2) (well conditioned near 0); near 180 degrees compare through the cosine
+    chord = np.degrees(2 * np.arcsin(np.clip(np.linalg.norm((A - B).reshape(n, 9), axis=1) / (2 * np.sqrt(2)), 0, 1)))
+    small = chord < 1.0
+    if np.any(np.abs(dAB[small] - chord[small]) > 2e-5 + 1e-6 * chord[small]):
+        i = int(np.argmax(np.where(small, np.abs(dAB - chord), 0)))
+        return {"what": "angular distance of two nearly identical (but different) rotations is wrong", "got": float(dAB[i]), "expected": float(chord[i])}
     if not np.allclose(dAB, exp, atol=2e-3) or not np.allclose(np.cos(np.radians(dAB)), np.cos(np.radians(exp)), atol=1e-7):
         i = int(np.argmax(np.abs(dAB - exp)))
         return {"what": "angular distance != rotation angle of the relative rotation", "got": float(dAB[i]), "expected": float(exp[i])}
